@@ -1,13 +1,18 @@
 """C15 - evaluation is deterministic and independent of host hash randomisation (DESIGN 5/C15).
 
 (a) TLC model-checks spec/Slots.tla: every permutation of the set-derived slot lists, wiring by name, same behaviour.
-(b) Closure-heavy programs (C05 families CL / HO / EO enumerated by TLC, seeded closure-heavy and general random
-    programs) and the corpus scripts of /repo/tests/basic and /repo/tests/compat run under PYTHONHASHSEED = 0..N-1
-    in separate processes and in two shuffled batches inside one process each.  TLC judges (EqJudge of spec/C15.tla)
-    that all observations of a program are equal and that the compiled slot layouts are instances of the Slots
-    model's choice; the common observation is judged against MiniJS (Judge of C05).  Python only collects.
+(b) Programs: C05 families CL / HO / EO, the families of spec/C15.tla (CO capture order, FF failing programs, FV bystanders,
+    TX text-compiling built-ins) - all enumerated by TLC -, seeded closure-heavy and general random programs, and the corpus
+    scripts of /repo/tests/basic and /repo/tests/compat.  Every program runs under PYTHONHASHSEED = 0..N-1 in separate
+    processes, in shuffled batches inside one process (each batch twice: back to back, and with virtual time beyond every
+    time limit passing between two evaluations), and in the histories spec/C15.tla enumerates (a failing program in every
+    position among bystanders that use its names; the text-compiling programs of one pattern; each history in a process
+    that evaluated nothing before, twice over, with both clock schedules).  TLC judges (EqJudge of spec/C15.tla) that all
+    observations of a program are equal, that the outcome is of the class the language prescribes, and that the compiled
+    slot layouts are instances of the Slots model's choice; the common observation is judged against MiniJS (Judge of
+    C05).  Python only collects.
 """
-import os, glob, json, random
+import os, glob, json, random, time
 from concurrent.futures import ThreadPoolExecutor
 from harness import tlc, engine
 from harness.common import Machinery, REPO
@@ -15,7 +20,11 @@ from checks import c05, c05_gen
 
 SLOTS_CFG = "INIT SlotsInit\nNEXT SlotsNext\nINVARIANT SlotsInRange\nINVARIANT LayoutIndependent\nINVARIANT Terminates\nCHECK_DEADLOCK FALSE\n"
 EQ_CFG = "INIT EqInit\nNEXT EqNext\nCHECK_DEADLOCK FALSE\n"
+ENUM15_CFG = ("INIT Enum15Init\nNEXT MachineNext\nCONSTRAINT Enum15Emit\nINVARIANT Invariants\nINVARIANT EnumTerminates\n"
+              "PROPERTY LogAppendOnly\nCHECK_DEADLOCK FALSE\n")
 SKIP_CORPUS = ("mandelbrot.js",)              # 30 s of rendering; nothing about slots in it
+DRIVER = "checks.c15_driver:driver"
+CHUNK = 120                                   # observations per EqJudge record (every record starts with the first observation)
 
 
 def corpus():
@@ -25,113 +34,217 @@ def corpus():
             if os.path.basename(path) in SKIP_CORPUS:
                 continue
             with open(path, encoding="utf-8") as f:
-                items.append({"id": "corpus/" + os.path.basename(path), "src": f.read(), "fam": "corpus"})
+                items.append({"id": "corpus/" + os.path.basename(path), "src": f.read(), "fam": "corpus", "mode": "corpus"})
     return items
+
+
+def key_of(fam, par):
+    return fam + json.dumps(par, sort_keys=True, separators=(",", ":"))
+
+
+def own_space(rep, res):
+    """programs and histories printed by Enum15 of spec/C15.tla"""
+    progs, hists, seen = [], [], set()
+    for r in res.records:
+        if r.get("kind") == "prog":
+            k = key_of(r["fam"], r["par"])
+            if k in seen:
+                continue
+            seen.add(k)
+            it = {"id": k, "fam": r["fam"], "par": r["par"], "ref": bool(r["ref"]), "exp": r["exp"], "ast": bool(r["ast"])}
+            if r["ast"]:
+                it["prog"], it["mode"] = r["prog"], "ast"
+            else:
+                it["src"], it["mode"] = r["src"], "text"
+            if r["ml"]:
+                it["ml"] = r["ml"]
+            progs.append(it)
+        elif r.get("kind") == "hist":
+            k = key_of(r["fam"], r["id"]["c"])
+            if k in seen:
+                continue
+            seen.add(k)
+            hists.append({"id": k, "fam": r["fam"], "items": [key_of(x["fam"], x["c"]) for x in r["items"]],
+                          "clks": [r["clk"]] * int(r["rounds"]), "fork": True, "lay": False})
+    progs.sort(key=lambda p: p["id"])
+    hists.sort(key=lambda h: h["id"])
+    return progs, hists
 
 
 def run(rep):
     quick = rep.tier == "quick"
-    # (a) the model
-    res = tlc.run(rep.pid, "Slots", SLOTS_CFG, env={"TIER": rep.tier}, timeout=1200, tag="slots", heap="4g")
+    # (a) the model, its vacuity guard (the same model with closures wired by position must violate LayoutIndependent),
+    #     and the two enumerations - four TLC runs side by side
+    with ThreadPoolExecutor(max_workers=4) as ex:
+        f_slots = ex.submit(tlc.run, rep.pid, "Slots", SLOTS_CFG, env={"TIER": rep.tier}, timeout=1200, tag="slots", heap="4g")
+        f_bad = ex.submit(tlc.run, rep.pid, "Slots", SLOTS_CFG, env={"TIER": "quick", "WIRING": "index"}, timeout=600, tag="slots_selftest", heap="4g")
+        f_own = ex.submit(tlc.run, rep.pid, "C15", ENUM15_CFG, env={"TIER": rep.tier}, timeout=1500, tag="enum_own", heap="4g")
+        fam_cases = c05.enumerate_programs(rep, "C05", rep.tier, tag="enum_closure", env={"FAMS": "CL HO EO"})
+        res, bad, own = f_slots.result(), f_bad.result(), f_own.result()
     rep.add_tlc("Slots (all permutations of locals / cell_vars / free_vars of 5 closure programs, wiring by name)", res)
     rep.spaces.append({"space": "Slots: layouts x steps of the abstract closure programs", "cases": res.distinct, "complete": True})
-    # vacuity guard: the same model with closures wired by position must violate LayoutIndependent
-    bad = tlc.run(rep.pid, "Slots", SLOTS_CFG, env={"TIER": "quick", "WIRING": "index"}, timeout=600, tag="slots_selftest", heap="4g")
     if "LayoutIndependent" not in bad.violated:
         raise Machinery("Slots self-test: index-based wiring was not rejected (%s)" % (bad.violated or bad.errors[:2]))
     rep.notes["slots_selftest"] = "index-based wiring violates LayoutIndependent after %d states" % bad.distinct
+    rep.add_tlc("C15.enum_own (families CO / FF / FV / TX and the histories; MiniJS invariants on every state of every program in the fragment)", own)
+    own_progs, hists = own_space(rep, own)
+    nfam = {}
+    for p in own_progs:
+        nfam[p["fam"]] = nfam.get(p["fam"], 0) + 1
+    for h in hists:
+        nfam[h["fam"]] = nfam.get(h["fam"], 0) + 1
+    for f in ("CO", "FF", "FV", "TX", "HF", "HT"):
+        if not nfam.get(f):
+            raise Machinery("enumeration of spec/C15.tla produced no %s item" % f)
+    rep.spaces.append({"space": "C15 families (TLC-enumerated): " + ", ".join("%s=%d" % kv for kv in sorted(nfam.items())),
+                       "cases": len(own_progs) + len(hists), "complete": True})
     # (b) programs
-    fam_cases = c05.enumerate_programs(rep, "C05", rep.tier, tag="enum_closure", env={"FAMS": "CL HO EO"})
-    progs = [{"id": "F%d" % c["id"], "fam": c["fam"], "par": c["par"], "prog": c["prog"]} for c in fam_cases]
+    progs = [{"id": "F%d" % c["id"], "fam": c["fam"], "par": c["par"], "prog": c["prog"], "mode": "ast", "ref": True, "exp": "", "ast": True}
+             for c in fam_cases]
     rnd = random.Random(rep.seed * 104729 + 15)
     nclo = int(os.environ.get("C15_NCLO", "150" if quick else "1000"))
     ngen = int(os.environ.get("C15_NGEN", "40" if quick else "300"))
     for i in range(nclo):
-        progs.append({"id": "C%d" % i, "fam": "closure-random", "par": {"seed": rep.seed, "n": i}, "prog": c05_gen.closure_program(rnd)})
+        progs.append({"id": "C%d" % i, "fam": "closure-random", "par": {"seed": rep.seed, "n": i}, "prog": c05_gen.closure_program(rnd),
+                      "mode": "ast", "ref": True, "exp": "", "ast": True})
     for i in range(ngen):
-        progs.append({"id": "G%d" % i, "fam": "general-random", "par": {"seed": rep.seed, "n": i}, "prog": c05_gen.random_program(rnd)})
-    items = progs + corpus()
+        progs.append({"id": "G%d" % i, "fam": "general-random", "par": {"seed": rep.seed, "n": i}, "prog": c05_gen.random_program(rnd),
+                      "mode": "ast", "ref": True, "exp": "", "ast": True})
+    items = progs + own_progs + [dict(c, ref=False, exp="", ast=False) for c in corpus()]
     nseeds = int(os.environ.get("C15_SEEDS", "16" if quick else "64"))
     byid = {it["id"]: it for it in items}
+    if len(byid) != len(items):
+        raise Machinery("program ids are not unique")
     obs = {it["id"]: [] for it in items}
-    cases = [dict((k, v) for k, v in it.items() if k in ("id", "prog", "src")) for it in items]
+    cases = [dict((k, v) for k, v in it.items() if k in ("id", "prog", "src", "mode", "ml")) for it in items]
+    for h in hists:
+        for k in h["items"]:
+            if k not in byid:
+                raise Machinery("history %s refers to a program that was not enumerated: %s" % (h["id"], k))
 
     def wall_hang(r):
         return r["out"].get("o") == "hang" and "wall" in str(r["out"].get("why", ""))
 
     def one_seed(seed):
-        # each hash seed in processes of its own
-        rs = engine.run_cases(rep.pid, cases, driver="checks.c15_driver:driver", hashseed=str(seed), tag="eng_seed%d" % seed,
+        # each hash seed in a process of its own; the virtual clock starts at 0 for every evaluation
+        rs = engine.run_cases(rep.pid, cases, driver=DRIVER, hashseed=str(seed), tag="eng_seed%d" % seed,
                               procs=1 if nseeds >= 16 else None)
         # a wall-clock watchdog verdict (overloaded machine) is re-run alone before it counts (DESIGN 3.4)
         again = [dict(c, wall=900.0) for c in cases if any(r["id"] == c["id"] and wall_hang(r) for r in rs)]
         if again:
-            redo = {r["id"]: r for r in engine.run_cases(rep.pid, again, driver="checks.c15_driver:driver", hashseed=str(seed),
+            redo = {r["id"]: r for r in engine.run_cases(rep.pid, again, driver=DRIVER, hashseed=str(seed),
                                                          tag="eng_seed%d_rerun" % seed, procs=1)}
             rs = [redo.get(r["id"], r) for r in rs]
-        return seed, rs
+        return "seed", seed, rs
 
-    with ThreadPoolExecutor(max_workers=16) as ex:
-        for seed, rs in ex.map(one_seed, range(nseeds)):
-            if len(rs) != len(cases):
-                raise Machinery("seed %d: %d results for %d cases" % (seed, len(rs), len(cases)))
-            for r in rs:
-                obs[r["id"]].append({"src": "seed%d" % seed, "log": r["log"], "out": r["out"], "lay": r["lay"]})
-    # shuffled batches inside one process (does anything depend on what was evaluated before?)
+    # shuffled batches inside one process (does anything depend on what was evaluated before, or on when?): every batch runs
+    # its order twice, back to back and then with more virtual time than any time limit between two evaluations
     batches = []
     for b in range(2 if quick else 4):
         order = list(cases)
         random.Random(rep.seed + 1000 + b).shuffle(order)
-        batches.append({"id": "batch%d" % b, "items": order})
+        batches.append({"id": "batch%d" % b, "items": order, "clks": ["b2b", "gap"]})
 
     def one_batch(bc):
         seed = 1 + int(bc["id"][5:])
-        return engine.run_cases(rep.pid, [bc], driver="checks.c15_driver:driver", hashseed=str(seed), tag="eng_" + bc["id"], procs=1)
+        return "hist", bc["id"], engine.run_cases(rep.pid, [bc], driver=DRIVER, hashseed=str(seed), tag="eng_" + bc["id"], procs=1)
 
-    with ThreadPoolExecutor(max_workers=4) as ex:
-        for rs in ex.map(one_batch, batches):
+    # the enumerated histories: each in a child forked from a process that has evaluated nothing; groups under different hash seeds
+    ngroups = 8 if quick else 16
+    used = {k for h in hists for k in h["items"]}
+    table = {"id": "table", "table": {c["id"]: c for c in cases if c["id"] in used}}
+
+    def one_group(g):
+        part = hists[g::ngroups]
+        if not part:
+            return "hist", "group%d" % g, []
+        return "hist", "group%d" % g, engine.run_cases(rep.pid, [table] + part, driver=DRIVER, hashseed=str(g), tag="eng_hist%d" % g, procs=1)
+
+    t0 = time.time()
+    dropped = 0
+    with ThreadPoolExecutor(max_workers=int(os.environ.get("C15_PROCS", "18"))) as ex:
+        futs = [ex.submit(one_batch, bc) for bc in batches] + [ex.submit(one_seed, s) for s in range(nseeds)] \
+            + [ex.submit(one_group, g) for g in range(ngroups)]
+        done = [f.result() for f in futs]
+    c05.timed(rep, "engine", t0)
+    nhist_obs = 0
+    for kind, what, rs in sorted(done, key=lambda d: (d[0] != "seed", str(d[1]) if d[0] != "seed" else "%04d" % d[1])):
+        if kind == "seed":
+            if len(rs) != len(cases):
+                raise Machinery("seed %d: %d results for %d cases" % (what, len(rs), len(cases)))
             for r in rs:
-                b, iid = r["id"].split(":", 1)
+                obs[r["id"]].append({"src": "seed%d" % what, "log": r["log"], "out": r["out"], "hl": r["hl"], "lay": r["lay"]})
+        else:
+            for r in rs:
                 if wall_hang(r):            # overloaded machine: this observation is not comparable (counted, not judged)
-                    rep.notes["batch_observations_dropped_wall_clock"] = rep.notes.get("batch_observations_dropped_wall_clock", 0) + 1
+                    dropped += 1
                     continue
-                obs[iid].append({"src": b, "log": r["log"], "out": r["out"], "lay": r["lay"]})
-    # EqJudge
-    eq_recs = []
+                nhist_obs += 1
+                obs[r["item"]].append({"src": "%s round %d (%s) position %d" % (r["hid"], r["round"], r["clk"], r["idx"]),
+                                       "log": r["log"], "out": r["out"], "hl": r["hl"], "lay": r["lay"]})
+    if dropped:
+        rep.notes["batch_observations_dropped_wall_clock"] = dropped
+    want = sum(len(b["items"]) * len(b["clks"]) for b in batches) + sum(len(h["items"]) * len(h["clks"]) for h in hists)
+    if nhist_obs + dropped != want:
+        raise Machinery("batches and histories: %d observations for %d evaluations" % (nhist_obs + dropped, want))
+    # EqJudge (long observation lists are cut into records that all start with the program's first observation)
+    eq_recs, chunk_of = [], {}
     for it in items:
-        isast = "prog" in it
-        eq_recs.append({"id": it["id"], "ast": isast, "prog": it["prog"] if isast else {"body": []}, "devs": [], "obs": obs[it["id"]]})
+        o = obs[it["id"]]
+        if not o:
+            raise Machinery("no observation of %s" % it["id"])
+        isast = bool(it.get("ast")) and "prog" in it
+        parts = [o] if len(o) <= CHUNK else [o[:1] + o[1 + k:1 + k + CHUNK - 1] for k in range(0, len(o) - 1, CHUNK - 1)]
+        for n, part in enumerate(parts):
+            rid = "%s#%d" % (it["id"], n)
+            chunk_of[rid] = (it["id"], part)
+            eq_recs.append({"id": rid, "ast": isast, "prog": it["prog"] if isast else {"body": []}, "exp": it.get("exp", ""),
+                            "devs": [], "obs": part})
+    t0 = time.time()
     verdicts, st, tr, wall = tlc.judge(rep.pid, "C15", eq_recs, EQ_CFG, shards=c05.SHARDS, tag="judge_eq")
+    c05.timed(rep, "tlc_judge_eq", t0)
     rep.add_judge(sum(len(r["obs"]) for r in eq_recs), st, tr)
     got = {v["id"]: v for v in verdicts}
     if len(got) != len(eq_recs):
         raise Machinery("EqJudge returned %d verdicts for %d records" % (len(got), len(eq_recs)))
-    varied = 0
-    for it in items:
-        v = got[it["id"]]
+    varied, reported = set(), set()
+    for rec in eq_recs:
+        v = got[rec["id"]]
+        iid, part = chunk_of[rec["id"]]
+        it = byid[iid]
         if v["nlay"] > 1:
-            varied += 1
-        if not (v["eq"] and v["shape"] and v["scope"]):
-            o = obs[it["id"]]
-            why = "outcomes differ between hash seeds / evaluation orders" if not v["eq"] else \
-                  ("slot layouts are not permutations of each other with a fixed prefix" if not v["shape"]
-                   else "slot lists of a top-level function are not the sets the scope analysis prescribes")
-            k = v.get("first", 0) or 1
+            varied.add(iid)
+        if not (v["eq"] and v["shape"] and v["scope"] and v["cls"]) and iid not in reported:
+            reported.add(iid)
+            why = "outcomes differ between hash seeds / evaluation orders / clock schedules" if not v["eq"] else \
+                  ("the outcome is not of the class the language prescribes (%s)" % it.get("exp") if not v["cls"] else
+                   ("slot layouts are not permutations of each other with a fixed prefix" if not v["shape"]
+                    else "slot lists of a top-level function are not the sets the scope analysis prescribes"))
+            k = (v.get("first", 0) or v.get("firstcls", 0) or 1)
+            d = part[min(k, len(part)) - 1]
             rep.mismatch("%s %s" % (it["fam"], it["id"]),
-                         {"why": why, "par": it.get("par"), "first": o[0], "differing": o[min(k, len(o)) - 1],
+                         {"why": why, "par": it.get("par"), "first": {x: part[0][x] for x in ("src", "log", "out")},
+                          "differing": {x: d[x] for x in ("src", "log", "out")},
                           "source": it.get("src") or __import__("harness.render", fromlist=["render"]).render(it["prog"])[0]}, dev="")
-    rep.notes["programs_with_layouts_varying_across_seeds"] = varied
-    if varied == 0:
+    rep.notes["programs_with_layouts_varying_across_seeds"] = len(varied)
+    if not varied:
         raise Machinery("no program's slot layout varied across hash seeds: the experiment does not exercise what it claims")
     # the common observation against the reference semantics
-    ast_items = [it for it in items if "prog" in it]
+    ast_items = [it for it in items if it.get("ref") and "prog" in it]
     recs = [{"id": it["id"], "prog": it["prog"], "log": obs[it["id"]][0]["log"], "out": obs[it["id"]][0]["out"], "pos": []} for it in ast_items]
     results = {it["id"]: {"log": obs[it["id"]][0]["log"], "out": obs[it["id"]][0]["out"]} for it in ast_items}
     jv = c05.judge(rep, "C15", recs, enumerated=False)
+    for it in ast_items:
+        if it["fam"] in ("CO", "FF", "FV") and jv[it["id"]]["v"] == "skip":
+            raise Machinery("reference machine could not run an enumerated program (%s): %s" % (jv[it["id"]].get("why"), it["id"]))
     c05.report(rep, ast_items, results, jv)
-    rep.spaces.append({"space": "programs x hash seeds (separate processes) + shuffled in-process batches",
-                       "cases": len(items), "seeds": nseeds, "batches": len(batches), "complete": False})
+    rep.spaces.append({"space": "programs x hash seeds (separate processes) + shuffled in-process batches (each back to back and with "
+                                "time passing) + enumerated histories (fresh process each, two rounds)",
+                       "cases": len(items), "seeds": nseeds, "batches": len(batches), "histories": len(hists),
+                       "history_and_batch_observations": nhist_obs, "complete": False})
     rep.evaluations = sum(len(o) for o in obs.values())
     rep.exhaustive = True           # the Slots model and the enumerated families were completed; seeds are a sample by nature
     rep.assumptions += ["the hash seed influences the engine only through set / dict iteration order (CPython)",
-                        "Math.random and Date.now are excluded (not used by the programs)"]
+                        "Math.random and Date.now are excluded (not used by the programs)",
+                        "the engine reads the clock through time.monotonic only (replaced by a virtual clock: one second per instruction, "
+                        "advanced by the driver between evaluations)"]
